@@ -81,7 +81,7 @@ func watchPart(prop string, filter func(name string) bool) func(r *ev.Report) {
 			}
 
 			if g := secp256k1.VerifAllGlobals(); g != globals {
-				r.Violation("package-level-state-changed", fmt.Sprintf("%s: %s -> %s", op.Name, globals, g), Case{"op": "watch", "i": fmt.Sprint(i), "name": op.Name, "mask": "0"})
+				r.PackageState("package-level-state-changed", fmt.Sprintf("%s: %s -> %s", op.Name, globals, g), Case{"op": "watch", "i": fmt.Sprint(i), "name": op.Name, "mask": "0"})
 				globals = g
 			}
 		}
